@@ -8,8 +8,10 @@ import (
 	"testing"
 
 	"github.com/cinar/indicator/v2/helper"
+	"github.com/cinar/indicator/v2/trend"
 	"pgregory.net/rapid"
 	"verif/harness/engine"
+	"verif/harness/pipe"
 )
 
 func TestMain(m *testing.M) { engine.Main(m) }
@@ -365,11 +367,85 @@ func ringProp[T helper.Number](name string) engine.AnyProp {
 	}
 }
 
+// ---------- the sliding-window minimum / maximum built on the two (trend.MovingMin / MovingMax) ----------
+
+// WinCase is a series and a window length.
+type WinCase[T helper.Number] struct {
+	Period int `json:"period"`
+	Values []T `json:"values"`
+}
+
+func windowProp[T helper.Number](name string) engine.AnyProp {
+	alpha := alphabet[T]()
+	return engine.Prop[WinCase[T]]{
+		ID: "C17", Subject: "MovingMinMax/" + name,
+		Gen: func(t *rapid.T) WinCase[T] {
+			c := WinCase[T]{Period: rapid.IntRange(1, 6).Draw(t, "period")}
+			n := rapid.IntRange(0, 24).Draw(t, "n")
+			for i := 0; i < n; i++ {
+				c.Values = append(c.Values, genValue(t, alpha))
+			}
+			return c
+		},
+		Check: func(c WinCase[T]) engine.Outcome {
+			var o engine.Outcome
+			res := pipe.Run([][]T{c.Values, c.Values}, pipe.Opts{}, func(cs []<-chan T) []<-chan T {
+				return []<-chan T{trend.NewMovingMinWithPeriod[T](c.Period).Compute(cs[0]), trend.NewMovingMaxWithPeriod[T](c.Period).Compute(cs[1])}
+			})
+			if !res.OK() {
+				o.Failf("MovingMin/MovingMax(%d) over %v: %s: %s", c.Period, c.Values, res.Verdict, res.Detail)
+				return o
+			}
+			want := len(c.Values) - c.Period + 1
+			if want < 0 {
+				want = 0
+			}
+			if len(res.Outs[0]) != want || len(res.Outs[1]) != want {
+				o.Failf("MovingMin/MovingMax(%d) over %d values delivered %d / %d values, want %d", c.Period, len(c.Values), len(res.Outs[0]), len(res.Outs[1]), want)
+				return o
+			}
+			extreme, dup := false, false
+			for k := 0; k < want; k++ {
+				w := c.Values[k : k+c.Period]
+				lo, hi := w[0], w[0]
+				for i, v := range w {
+					if v < lo {
+						lo = v
+					}
+					if v > hi {
+						hi = v
+					}
+					if v == alpha[0] || v == alpha[len(alpha)-1] {
+						extreme = true
+					}
+					for _, u := range w[:i] {
+						if u == v {
+							dup = true
+						}
+					}
+				}
+				if res.Outs[0][k] != lo || res.Outs[1][k] != hi {
+					o.Failf("window %v (period %d, #%d of %v): MovingMin = %v, MovingMax = %v; the multiset's minimum and maximum are %v and %v", w, c.Period, k, c.Values, res.Outs[0][k], res.Outs[1][k], lo, hi)
+					return o
+				}
+			}
+			o.NonTrivial = want >= 2 && c.Period >= 2 && extreme && dup
+			if extreme {
+				o.Class("window_holds_an_extreme_of_the_type")
+			}
+			o.Key = fmt.Sprint(c.Period, c.Values)
+			return o
+		},
+	}
+}
+
 func props() []engine.AnyProp {
 	return []engine.AnyProp{
 		bstProp[int8]("int8"), bstProp[int16]("int16"), bstProp[int32]("int32"), bstProp[int64]("int64"),
 		bstProp[int]("int"), bstProp[float32]("float32"), bstProp[float64]("float64"),
 		ringProp[int8]("int8"), ringProp[int64]("int64"), ringProp[float64]("float64"), ringProp[int]("int"),
+		windowProp[int8]("int8"), windowProp[int16]("int16"), windowProp[int32]("int32"), windowProp[int64]("int64"),
+		windowProp[int]("int"), windowProp[float32]("float32"), windowProp[float64]("float64"),
 	}
 }
 
